@@ -12,7 +12,10 @@ operations on a shared object still equal those of its run alone (under COLLECT_
 With the thread missing from the deduplicate key, with thread-local holders turned into module state, for two threads
 not created through threading.Thread on one OS thread ident (the library as written: an OPEN FINDING), or for a thread
 that reads a shared scoped value / alru cache (the property as stated is false of such programs: an OPEN FINDING), the
-statement is refuted (counterexample theorems).
+statement is refuted (counterexample theorems).  A third OPEN FINDING needs no object of the program at all: the
+library's own process-wide `asynq.none_future` keeps the re-entrancy flag of FutureBase.__repr__ (`_in_repr`) in the
+object, so `repr(none_future)` answers '<recursion>' to a thread while another thread is inside the same method
+(C16_none_future_repr_counterexample; replayed deterministically, see `nf_enter`).
 
 NOT PROVABLE, SHOWN BY THE RUNS ONLY: that the Python functions behave like `gStep (Keying.cpython aliens)`, and
 behaviour under real OS interleavings.  Four kinds of cases tie the model to the current tree:
@@ -25,7 +28,8 @@ behaviour under real OS interleavings.  Four kinds of cases tie the model to the
         Threads of a run may carry EQUAL NAMES (a home-made pool calling every worker "worker"; the empty name; a thread
         renaming itself in mid-flight; a successor with the name of its dead predecessor): the name is an attribute the
         program chooses, the model has no name component (renaming = `note`, a no-op), so any dependence of a carrier or
-        of the deduplication scope on it shows as a disagreement with the model and with the run alone;
+        of the deduplication scope on it shows as a disagreement with the model and with the run alone (the library
+        reads the name in one place, for display: TaskScheduler.name, scheduler.py:48-55 - observed as a Boolean);
   hist  K threads execute generated histories of operations IN LOCK-STEP under a generated schedule (so thread B acts
         while thread A is inside a task, in the middle of a flush, in asyncio mode, holds an in-flight deduplicated
         task, is inside `with V.override(..)` of a scoped value both use ...): every observation is compared with the
@@ -63,15 +67,16 @@ HEADLINE = [
     # the library as written with threads that were not created through threading.Thread
     "AsynqModel.Threads.C16_cpython_noninterference_partial",
     "AsynqModel.Threads.C16_alien_ident_counterexample",
-    # attributes of a thread that are not its identity (its name): never looked at by the library as written
-    "AsynqModel.Threads.C16_attr_key_separates_iff",
+    # a deduplication scope derived from an attribute of a thread that is not its identity (its name) - the library as
+    # written reads the name for display only (TaskScheduler.name, scheduler.py:48-55)
     "AsynqModel.Threads.C16_thread_name_key_counterexample",
-    "AsynqModel.Threads.C16_rename_is_noop",
     # necessity: the same step with a keying that does not separate the threads / objects shared by the program / the
     # cut of the strict comparison under COLLECT_PERF_STATS / the start context
     "AsynqModel.Threads.C16_no_thread_in_key_counterexample",
     "AsynqModel.Threads.C16_module_state_counterexample",
     "AsynqModel.Threads.C16_shared_object_counterexample",
+    # the library's own process-wide none_future carries the re-entrancy flag of FutureBase.__repr__ (OPEN FINDING)
+    "AsynqModel.Threads.C16_none_future_repr_counterexample",
     "AsynqModel.Threads.C16_strict_cut_counterexample",
     "AsynqModel.Threads.C16_inherited_mode_counterexample",
     # the observer
@@ -82,6 +87,10 @@ HEADLINE = [
 # hold by construction of the model / are instances of the theorems above in the functions the driver evaluates; the
 # content is the correspondence
 BY_CONSTRUCTION = [
+    # third audit C: both are `rfl`-level facts about how the model is built (Keying.byAttr has slot := id; `note` is a
+    # no-op of privStep); what ties thread names to the code are the lock-step runs with equal / empty / changing names
+    "AsynqModel.Threads.C16_attr_key_separates_iff",
+    "AsynqModel.Threads.C16_rename_is_noop",
     "AsynqModel.Threads.C16_real_separates",
     "AsynqModel.Threads.C16_noninterference_library",
     "AsynqModel.Threads.C16_spec_holds_library",
@@ -98,7 +107,7 @@ RULE = ("inv: one AST inventory of asynq/*.py per run + the list of probed carri
         "threads renaming themselves in mid-flight) under a generated schedule (fine / bursty / round-robin; 30% with identical histories on all threads), plus a FIXED list "
         "of write-in-A/observe-in-B probes: one per carrier of the model's component list, one for the shared objects, one "
         "thread-lifetime probe and two start-context probes, each with both COLLECT_PERF_STATS settings, and one "
-        "thread-lifetime probe with threads not created through threading.Thread plus three thread-name probes per setting - equal names while a deduplicated task is in flight, the empty name with a rename in mid-flight, a successor with its dead predecessor's name (25 = 12 x 2 + 1); quick 400 / thorough "
+        "thread-lifetime probe with threads not created through threading.Thread plus three thread-name probes per setting - equal names while a deduplicated task is in flight, the empty name with a rename in mid-flight, a successor with its dead predecessor's name and one none_future probe per setting - thread A is stopped inside repr(asynq.none_future) while thread B asks for the same repr (27 = 13 x 2 + 1); 20% of the generated histories get, from a generator of their own seeded by the case, 1-3 extra hops repr(none_future) per thread, as one step or split in two at the first call made inside FutureBase.__repr__; quick 400 / thorough "
         "6000. life: lock-step histories whose threads live ONE AFTER THE OTHER - each is created after its predecessor "
         "was joined, on the predecessor's recycled OS thread ident (candidate threads with another ident are parked, up to "
         "200 tries; feature thread-ident-recycled counts the cases where every successor got it), every thread leaves an "
@@ -122,6 +131,10 @@ TRUSTED = [
     "thread's run alone is started the same way (a thread not created through threading.Thread runs alone as a "
     "threading.Thread)",
     "the OS / CPython thread scheduler: interleavings are sampled (tiny switch interval, repeated runs), not enumerated",
+    "the one place where the harness plays the thread scheduler INSIDE a library method: hop nfEnter installs "
+    "sys.setprofile for the calling thread around repr(asynq.none_future) and gives the turn away at the first Python-level "
+    "call made from the frame of FutureBase.__repr__ (a point where CPython may switch threads anyway); in the compiled "
+    "build the method makes no such call, the hop is recorded as one undivided nfRepr and the finding does not show",
     "CPython 3.12 threading.local (one slot per thread, also for threads not created through threading.Thread), "
     "contextvars (one context per thread; a copy is a snapshot), threading.current_thread (a distinct Thread object per "
     "threading.Thread thread; ONE cached _DummyThread per OS thread ident for other threads) - `Keying.cpython`",
@@ -147,6 +160,13 @@ ASSUMPTIONS = [
     "hist-alien/fail:observes-foreign:deduplicate; C16_cpython_noninterference_partial needs identsDistinct, "
     "C16_alien_ident_counterexample); generated only as thread lifetimes with COLLECT_PERF_STATS off, the inherited "
     "task is never run",
+    "the library's OWN process-wide objects are INSIDE the statement: asynq.none_future (a ConstFuture created at import, "
+    "futures.py:225) is mutable - FutureBase.__repr__ keeps its re-entrancy flag `_in_repr` in the object - so a thread "
+    "that only does `yield none_future; return repr(none_future)` gets '<recursion>' while another thread is inside the "
+    "same method (OPEN FINDING hist/fail:interference:none-future-repr, C16_none_future_repr_counterexample, proposed "
+    "repair proposed-fixes/C16-repr-guard-thread-local.diff).  Modelled (Shared.nf, TL.nfHeld, ops nfRepr/nfEnter/nfExit), "
+    "generated in lock-step histories only: the free-running prog cases do NOT call repr(none_future) (the audit's "
+    "probabilistic probe - 4 threads x 300000 calls, about 13% '<recursion>' - would be a flaky case)",
     "threads do not hand asynq objects (tasks, batch items, contexts) to each other",
     "Thread objects compare by identity (threading.Thread defines no __eq__/__hash__): cache_key compares the Thread "
     "object with ==, so a Thread SUBCLASS that declares two threads equal (e.g. __eq__/__hash__ by name) merges their "
@@ -345,6 +365,35 @@ def gen_hist(rng, k=None, n=None):
         case["inherit"] = inherit
     if names is not None:
         case["names"] = names
+    return add_nf(case)
+
+
+def add_nf(case):
+    """third audit A4: extra hops `repr(asynq.none_future)` - as one step (nfRepr) or split in two at the first call made
+    inside FutureBase.__repr__ (nfEnter / nfExit, other threads get turns in between) - put into a generated history by a
+    generator OF ITS OWN (seeded by the case, so the main random stream and every case generated before the third audit
+    stay what they were).  Turn slots of a thread are interchangeable, so a hop added to thread t needs one more `t`
+    anywhere in the order; the two halves of a split repr stay adjacent in the thread's hop list"""
+    r2 = random.Random("nf:" + json.dumps(case, sort_keys=True))
+    if r2.random() >= 0.2:
+        return case
+    order = case["order"]
+    for t, hops in enumerate(case["threads"]):
+        if r2.random() >= 0.7:
+            continue
+        for _ in range(r2.randint(1, 3)):
+            ok = [j for j in range(len(hops) + 1)
+                  if not (j < len(hops) and hops[j][0] in ("flushPause", "nfExit"))]
+            j = r2.choice(ok)
+            slots = [i for i, u in enumerate(order) if u == t]
+            p = slots[j] if j < len(slots) else len(order)
+            if r2.random() < 0.5:
+                hops.insert(j, ["nfRepr"])
+                order.insert(p, t)
+            else:
+                hops[j:j] = [["nfEnter"], ["nfExit"]]
+                order.insert(p, t)
+                order.insert(min(len(order), p + 1 + r2.randint(0, 4)), t)
     return case
 
 
@@ -467,6 +516,10 @@ def probes():
                                 [["dedupCall", 0, 1], ["getActive"], ["taskEnter", 0, 1], ["taskLeave"], ["dedupCall", 0, 1],
                                  ["mkItem", 1], ["profIncr"]]],
                     "order": [0] * 3 + [1] * 7})
+        # the library's own none_future (third audit A4): A is stopped inside repr(none_future), B - which shares nothing
+        # with A - asks for the same repr meanwhile ('<recursion>') and again after A has left the method
+        res.append(_probe([["nfEnter"], ["nfExit"], ["nfRepr"], ["getActive"]],
+                          [["nfRepr"], ["nfRepr"], ["mkItem", 1], ["nfRepr"]], perf, None))
     # thread lifetimes of threads not created through threading.Thread (second audit N4c): A leaves an in-flight
     # deduplicated task and ends; B, started afterwards with _thread.start_new_thread on A's thread ident, asks for it
     res.append({"kind": "hist", "perf": 0, "life": 1, "alien": 1, "probe": 1, "comp": ["tools", "DeduplicateDecorator.tasks"],
@@ -627,7 +680,7 @@ def shrink(case):
     # hist: drop one hop of one thread (keeping enter/leave and pause structure: drop only simple hops or whole pairs)
     for i, hops in enumerate(th):
         for j, h in enumerate(hops):
-            if h[0] in ("taskEnter", "taskLeave", "flushPause", "svEnter", "svExit"):
+            if h[0] in ("taskEnter", "taskLeave", "flushPause", "svEnter", "svExit", "nfEnter", "nfExit"):
                 continue
             n = 1
             if h[0] == "useItems":
@@ -1427,6 +1480,13 @@ def env():
                     rec.lru_ran = False
                     v = rec.world.LRU(hop[1])
                     rec.emit(op, ["cache", 0 if rec.lru_ran else 1, v if isinstance(v, int) else FOREIGN])
+                elif name == "nfRepr":
+                    # what the audit's threads do: the result of the computation is this text
+                    rec.emit(op, ["bool", repr(e.asynq.none_future) == "<recursion>"])
+                elif name == "nfEnter":
+                    nf_enter(rec)
+                elif name == "nfExit":
+                    rec.emit(op, ["unit"])      # its nfEnter was not stopped inside the method: nothing is left to do
                 elif name == "taskEnter":
                     if len(hop) == 1:
                         op = ["newTask"]
@@ -1448,6 +1508,39 @@ def env():
                 raise
             except Exception as x:   # what the operation raised is its observation
                 rec.emit(op, raised(x))
+
+    def nf_enter(rec):
+        """`repr(asynq.none_future)` with a thread switch INSIDE FutureBase.__repr__ at a point the harness chooses: a
+        profile function of this thread gives the turn away at the first Python-level call made from the frame of
+        `__repr__` (futures.py:166-184: `self.is_computed()`, the statement after `self._in_repr = True`) and comes back
+        at the thread's next turn (hop nfExit).  Records: nfEnter (was the answer '<recursion>' at once) + nfExit, or -
+        when the method makes no such call (compiled build) - one undivided nfRepr."""
+        import sys
+        code = getattr(getattr(e.asynq.futures.FutureBase, "__repr__", None), "__code__", None)
+        st = {"in": False}
+
+        def prof(frame, event, arg):
+            if event == "call" and not st["in"] and frame.f_back is not None and frame.f_back.f_code is code:
+                sys.setprofile(None)
+                st["in"] = True
+                rec.emit(["nfEnter"], ["bool", False])
+                hop = rec.take()      # preempted here: the other threads act until this thread's next turn
+                if hop is not None and hop[0] != "nfExit":
+                    rec.hpos -= 1     # not ours: leave it to the main loop (the trace will differ)
+
+        if code is not None:
+            sys.setprofile(prof)
+        try:
+            s = repr(e.asynq.none_future)
+        finally:
+            sys.setprofile(None)
+        rec_ = s == "<recursion>"
+        if st["in"]:
+            rec.emit(["nfExit"], ["bool", True] if rec_ else ["unit"])
+        elif rec_:
+            rec.emit(["nfEnter"], ["bool", True])
+        else:
+            rec.emit(["nfRepr"], ["bool", False])
 
     def body():
         rec = cur()
